@@ -182,7 +182,7 @@ def struct_check(mod, cres, viol, C):
         if emitted_cc != f.cconv:
             viol("struct:func-cconv-dropped" if emitted_cc == "ccc" else "struct:func-cconv-changed",
                  f"llvm.func {f.cconv} @{f.name} is emitted as '{emitted_cc}' (calls to it keep '{f.cconv}': mismatch is UB)", None)
-        if got["nblocks"] != len(f.blocks):
+        if got["nblocks"] < len(f.blocks):
             viol("struct:block-count", f"{f.name}: {len(f.blocks)} source blocks, {got['nblocks']} emitted", None)
         exp = []
         for b in f.blocks:
@@ -286,6 +286,11 @@ def reject_key(stage, err):
     if stage == "parse-error":
         m = re.search(r"error: (.*)", err)
         msg = "parse: " + (m.group(1) if m else msg)
+        # known wrong-behaviour model: a *definition* printed with the `external` keyword (LLVM reads a declaration
+        # and then trips over the initializer); confirmed on the offending line itself
+        off = re.search(r"error: expected top-level entity\n(@\S+ = external (?:global|constant) [^\n]+)\n( *)\^", err)
+        if off and len(off.group(2)) < len(off.group(1)):
+            return "llvm-rejects:external-linkage-global-with-initializer"
     return "llvm-rejects:" + _NORM.sub("#", msg)[:90]
 
 
@@ -435,7 +440,10 @@ def process_generated(E, items, R, micro=False):
         R["evaluations"] += 1
         h = shash(text)
 
-        def viol(key, summary, witness, _text=text, _cid=cid):
+        mkeys = set()
+
+        def viol(key, summary, witness, _text=text, _cid=cid, _mk=mkeys):
+            _mk.add(key)
             C["violations_raw"] = C.get("violations_raw", 0) + 1
             seen = R["_vkeys"].setdefault(key, 0)
             R["_vkeys"][key] = seen + 1
@@ -462,11 +470,29 @@ def process_generated(E, items, R, micro=False):
         for n, k in op_names(xm).items():
             C["converted_op:" + n] = C.get("converted_op:" + n, 0) + k
         entries, calls, expected = plan_calls(mod, rng, VECTORS, C, micro=micro)
-        prepared.append((cid, mod, text, h, viol, key_of, entries, calls, expected, payload))
+        prepared.append((cid, mod, text, h, viol, _known_context(key_of, mkeys), entries, calls, expected, payload))
     cres_all = run_child([{"id": str(i), "ir": p[9], "entries": p[6], "calls": p[7]} for i, p in enumerate(prepared)])
     for i, (cid, mod, text, h, viol, key_of, entries, calls, expected, ir) in enumerate(prepared):
         cres = cres_all[str(i)]
         judge(mod, text, h, cres, expected, viol, key_of, R, ir)
+
+
+def _emitted_cconv_dropped(mod, ir):
+    for f in mod.funcs:
+        if f.cconv != "ccc" and f.blocks is not None and not re.search(r"define [^@\n]*\b" + f.cconv + r"\b[^@\n]*@", ir):
+            return True
+    return False
+
+
+def _known_context(key_of, mkeys):
+    """A result difference in a module whose llvm.func calling convention was dropped on the definition (known
+    finding: the callers keep it, the mismatch is UB and x86-64 coldcc/fastcc really miscompile) gets its own key."""
+    def k(f):
+        if "struct:func-cconv-dropped" in mkeys:
+            return "exec:wrong-result:after-func-cconv-dropped"
+        return key_of(f)
+    k.mkeys = mkeys
+    return k
 
 
 def judge(mod, text, h, cres, expected, viol, key_of, R, ir):
@@ -485,7 +511,8 @@ def judge(mod, text, h, cres, expected, viol, key_of, R, ir):
         if at.startswith("call"):
             idx = int(at.split(":")[1])
             f, args, _want = expected[idx]
-            viol("exec:native-crash-or-hang:" + mod.profile, f"native execution of @{f.name}{tuple(args)} died/hung (rc={cres.get('rc')}) "
+            viol("exec:native-crash-or-hang:" + ("after-func-cconv-dropped" if any(f.cconv != "ccc" for f in mod.funcs) and
+                                                 _emitted_cconv_dropped(mod, ir) else mod.profile), f"native execution of @{f.name}{tuple(args)} died/hung (rc={cres.get('rc')}) "
                  "on an input the reference defines", {"function": f.name, "args": args, "stderr": cres.get("err", "")[-500:]})
         elif at in ("parse", "verify"):
             C["llvm_fatal_in_" + at] = C.get("llvm_fatal_in_" + at, 0) + 1
@@ -547,7 +574,7 @@ def work_micro(E, job, R):
         rng = random.Random(f"c23/micro/{job['seed']}/{job['shard']}/{gi}")
         mod, keymap = M.build_module(rng, grp)
         cid = {"kind": "micro", "seed": job["seed"], "shard": job["shard"], "nshards": job["nshards"]}
-        items.append((cid, mod, (lambda f, _km=keymap: "exec:wrong-result:" + _km[f.name]), rng))
+        items.append((cid, mod, (lambda f, _km=keymap: "exec:wrong-result:" + _km.get(f.name, f.name)), rng))
         R["counters"]["micro_functions"] = R["counters"].get("micro_functions", 0) + len(grp)
     process_generated(E, items, R, micro=True)
 
@@ -555,14 +582,21 @@ def work_micro(E, job, R):
 def finish(agg, tier):
     inc = []
     c = agg.counters
-    need = {"quick": {"llvm_accepted": 1500, "vectors_compared": 60000, "functions_executed": 2500, "struct_instructions_compared": 40000},
-            "thorough": {"llvm_accepted": 20000, "vectors_compared": 1000000, "functions_executed": 40000, "struct_instructions_compared": 500000}}[tier]
+    need = {"quick": {"llvm_accepted": 1200, "vectors_compared": 35000, "functions_executed": 2000, "struct_instructions_compared": 60000,
+                      "modules_executed": 1000, "corpus_ok": 60, "directed_ok": 15, "micro_functions": 900},
+            "thorough": {"llvm_accepted": 10000, "vectors_compared": 350000, "functions_executed": 20000,
+                         "struct_instructions_compared": 450000, "modules_executed": 8000, "corpus_ok": 60, "directed_ok": 15,
+                         "micro_functions": 3600}}[tier]
     for k, v in need.items():
         if c.get(k, 0) < v:
             inc.append(f"{k} = {c.get(k, 0)} < {v}")
     gi = sum(v for k, v in c.items() if k.startswith("generator_invalid:"))
     if gi > 0.02 * max(1, agg.evaluations):
         inc.append(f"{gi} generated modules were rejected by the xDSL parser/verifier (generator defect)")
+    nt = c.get("modules_crash", 0) + c.get("modules_unsupported", 0)
+    if nt > 0.04 * max(1, nt + c.get("modules_ok", 0)):
+        inc.append(f"{nt} of {nt + c.get('modules_ok', 0)} generated modules were not translated (convert_module raised): "
+                   "the workload no longer reaches the backend as designed")
     ca = sum(v for k, v in c.items() if k.startswith("codegen_abort:"))
     if ca > 0.02 * max(1, c.get("llvm_accepted", 0)):
         inc.append(f"{ca} modules aborted in LLVM code generation")
@@ -775,7 +809,7 @@ def plan(tier, seed):
     nm = 12 if tier == "quick" else 16
     for rep in range(1 if tier == "quick" else 4):
         jobs += [{"kind": "micro", "seed": seed * 10 + rep, "shard": i, "nshards": nm} for i in range(nm)]
-    ng, per = (32, 66) if tier == "quick" else (96, 480)
+    ng, per = (32, 66) if tier == "quick" else (64, 300)
     for i in range(ng):
         jobs.append({"kind": "gen", "seed": f"{seed}.{i}", "count": per, "profiles": ALL_PROFILES})
     return jobs
